@@ -497,6 +497,22 @@ pub struct Pending {
 
 pub type GateFn = Box<dyn FnMut(&ReqInfo) -> Gate + Send>;
 
+/// Decision of the asynchronous gate (used for coordinator calls in C07): the gate future may do
+/// arbitrary work first (restart a proxy, run another coordinator's round, never return = crash).
+#[derive(Clone, Copy, Debug, PartialEq, Eq)]
+pub enum Verdict {
+    Serve,
+    DropRequest,
+    DropReply,
+    /// executed twice at the target; the caller gets the second reply
+    Duplicate,
+    /// the caller sees a broken connection now; the request is executed when the harness calls
+    /// `deliver_delayed` (reply discarded)
+    Delay,
+}
+
+pub type AsyncGateFn = Arc<dyn Fn(ReqInfo) -> Pin<Box<dyn Future<Output = Verdict> + Send>> + Send + Sync>;
+
 pub struct WorldState {
     pub redis: BTreeMap<String, RedisNode>,
     pub proxies: BTreeMap<String, Arc<ProxyNode>>,
@@ -504,6 +520,8 @@ pub struct WorldState {
     pub log: Vec<Event>,
     pub activity: u64,
     pub gate: Option<GateFn>,
+    pub agate: Option<AsyncGateFn>,
+    pub delayed: Vec<ReqInfo>,
     pub pending: Vec<Pending>,
     next_id: u64,
     conn_seq: u64,
@@ -589,6 +607,8 @@ impl World {
                 log: vec![],
                 activity: 0,
                 gate: None,
+                agate: None,
+                delayed: vec![],
                 pending: vec![],
                 next_id: 0,
                 conn_seq: 0,
@@ -636,6 +656,28 @@ impl World {
 
     pub fn set_gate(&self, g: Option<GateFn>) {
         self.0.st.lock().unwrap().gate = g;
+    }
+
+    pub fn set_async_gate(&self, g: Option<AsyncGateFn>) {
+        self.0.st.lock().unwrap().agate = g;
+    }
+
+    /// Execute every delayed request now (in the given order), discarding the replies.
+    pub async fn deliver_delayed(&self, reverse: bool) -> usize {
+        let mut d: Vec<ReqInfo> = std::mem::take(&mut self.0.st.lock().unwrap().delayed);
+        if reverse {
+            d.reverse();
+        }
+        let n = d.len();
+        for info in d {
+            if self.0.st.lock().unwrap().down.contains(&info.to) {
+                continue;
+            }
+            for c in &info.cmds {
+                let _ = self.execute_at(&format!("{}(late)", info.from), &info.to, c).await;
+            }
+        }
+        n
     }
 
     pub fn activity(&self) -> u64 {
@@ -686,6 +728,56 @@ impl World {
 
     /// One request on a connection: gate, then execute at the target.
     pub async fn request(&self, conn: &str, control: bool, from: &str, to: &str, cmds: Vec<Cmd>) -> Result<Vec<RespVec>, ()> {
+        let agate = {
+            let st = self.0.st.lock().unwrap();
+            if from.starts_with("coord") && !st.down.contains(to) {
+                st.agate.clone()
+            } else {
+                None
+            }
+        };
+        if let Some(g) = agate {
+            let id = {
+                let mut st = self.0.st.lock().unwrap();
+                st.next_id += 1;
+                st.activity += 1;
+                st.next_id
+            };
+            let info = ReqInfo { id, conn: conn.to_string(), control, from: from.to_string(), to: to.to_string(), cmds: cmds.clone() };
+            let verdict = g(info.clone()).await;
+            let first = cmds.first().cloned().unwrap_or_default();
+            match verdict {
+                Verdict::DropRequest => {
+                    self.record("fault", from, to, &first, "request lost".into());
+                    return Err(());
+                }
+                Verdict::Delay => {
+                    self.record("fault", from, to, &first, "request delayed".into());
+                    self.0.st.lock().unwrap().delayed.push(info);
+                    return Err(());
+                }
+                _ => {}
+            }
+            if self.0.st.lock().unwrap().down.contains(to) {
+                self.record("fault", from, to, &first, "connection failed".into());
+                return Err(());
+            }
+            let mut replies = vec![];
+            for round in 0..(if verdict == Verdict::Duplicate { 2 } else { 1 }) {
+                replies.clear();
+                if round == 1 {
+                    self.record("fault", from, to, &first, "request duplicated".into());
+                }
+                for c in &cmds {
+                    replies.push(self.execute_at(from, to, c).await?);
+                }
+            }
+            if verdict == Verdict::DropReply {
+                self.record("fault", from, to, &first, "reply lost".into());
+                return Err(());
+            }
+            return Ok(replies);
+        }
         let (decision, id) = {
             let mut st = self.0.st.lock().unwrap();
             st.next_id += 1;
